@@ -1,5 +1,5 @@
 ------------------------------ MODULE TracePatterns ------------------------------
-(* Directed family of small communication patterns for C18 (2-3 contexts, <= 4 sections     *)
+(* Directed family of small communication patterns for C18 (2-4 contexts, <= 4 sections     *)
 (* each). TLC evaluates the family and exports it (cases.ndjson) for harness/cmd/c18drv,    *)
 (* which runs every case on the real runtime under the scheduler gate. A case is the        *)
 (* global schedule: the sequence of critical-section attempts in the order they run.        *)
@@ -104,6 +104,41 @@ T8(K) == Case("ping-pong:" \o K, 2,
                  A(2, 2, <<Take(K, 1, 2)>>, 0),
                  A(1, 3, <<rl("v")>>, 0) >>)
 
+(* T9  (seed C18-B) write-then-witness, then an ABORTED attempt is the next access to the variable,     *)
+(*     then a fresh reader reads it. The aborted attempt reads or writes the variable and is made by   *)
+(*     the writer itself (its next section), by the later reader, or by a third context. The clock of  *)
+(*     the variable must not go back below the clock logged for the writer's commit: the reader's      *)
+(*     clock has to contain what the writer witnessed (the producer's component) after its write.      *)
+(*     K = "sh" | "shm"; J = medium of the witnessed value; by = "writer" | "reader" | "third";        *)
+(*     mode = "r" (read-then-abort) | "w" (write-then-abort). The producer is the last context.        *)
+T9(K, J, by, mode) ==
+    LET n == IF by = "third" THEN 4 ELSE 3
+        p == n
+        a == CASE by = "writer" -> 1 [] by = "reader" -> 2 [] by = "third" -> 3
+        touch == IF mode = "r" THEN Take(K, 1, a) ELSE Put(K, a, 2, 0)
+    IN Case("abort-next-access:" \o K \o ":via=" \o J \o ":by=" \o by \o ":" \o mode, n,
+              << A(p, 1, <<Put(J, p, 1, 0)>>, 0),
+                 A(1, 1, <<Put(K, 1, 2, 0), Take(J, p, 1)>>, IF by = "writer" THEN 2 ELSE 0),
+                 X(a, IF by = "writer" THEN 2 ELSE 1, <<touch>>),
+                 A(2, 1, <<Take(K, 1, 2)>>, 0) >>)
+(* T9h the same with the value relayed on: reader 2 stores it in an archetype local, forwards it from  *)
+(*     its next section over a channel to 3; every reader down the chain must dominate the writer      *)
+T9h(K, J) == Case("abort-next-access-relay-local-hop:" \o K \o ":via=" \o J, 4,
+              << A(4, 1, <<Put(J, 4, 1, 0)>>, 0),
+                 A(1, 1, <<Put(K, 1, 2, 0), Take(J, 4, 1)>>, 2),
+                 X(1, 2, <<Take(K, 1, 1)>>),
+                 A(2, 1, <<Take(K, 1, 2), wlr("v", 1)>>, 2),
+                 A(2, 2, <<rl("v"), Put("ch", 2, 3, 1)>>, 0),
+                 A(3, 1, <<Take("ch", 2, 3)>>, 0) >>)
+(* T9c two aborted accesses in a row and a committed READ in between heal nothing they should not:     *)
+(*     abort by a third context, abort by the writer, then the reader                                   *)
+T9c(K, J) == Case("abort-next-access-twice:" \o K \o ":via=" \o J, 4,
+              << A(4, 1, <<Put(J, 4, 1, 0)>>, 0),
+                 A(1, 1, <<Put(K, 1, 2, 0), Take(J, 4, 1)>>, 2),
+                 X(3, 1, <<Put(K, 3, 2, 0)>>),
+                 X(1, 2, <<Take(K, 1, 1), Put(K, 1, 2, 1)>>),
+                 A(2, 1, <<Take(K, 1, 2)>>, 0) >>)
+
 (* archetype-local state only: hints, read-your-writes, indexed cells, aborted writes, loops          *)
 L1 == Case("locals:hints-chain", 2,
            << A(1, 1, <<wl("v"), wl("v"), rl("v"), wlr("w", 3), rl("w")>>, 2),
@@ -145,8 +180,18 @@ T3all == << T3("sh", "sy"), T3("ch", "ch"), T3("tcp", "tcp"), T3("ch", "tcp"), T
 T4all == << T4("ch", "ch"), T4("tcp", "tcp"), T4("sh", "ch"), T4("ch", "shm") >>
 T6all == << T6("sh", "sy"), T6("ch", "sh"), T6("tcp", "sh") >>
 
+T9by == <<"writer", "reader", "third">>
+T9all == [i \in 1..12 |->
+            LET K == IF i <= 6 THEN "sh" ELSE "shm"
+                by == T9by[((i - 1) % 6) \div 2 + 1]
+                mode == IF i % 2 = 1 THEN "r" ELSE "w"
+                J == CASE K = "sh" /\ mode = "r" -> "ch" [] K = "sh" /\ mode = "w" -> "sy"
+                       [] K = "shm" /\ mode = "r" -> "sy" [] K = "shm" /\ mode = "w" -> "tcp"
+            IN T9(K, J, by, mode)]
+
 Cases == SeqOf(T1, Kinds) \o T2all \o T2same \o SeqOf(T2w, Kinds) \o T2oall \o T3all \o T4all
          \o SeqOf(T5, Kinds) \o T6all \o SeqOf(T7, Kinds) \o SeqOf(T8, Kinds)
+         \o T9all \o << T9h("sh", "ch"), T9c("shm", "ch") >>
          \o << L1, L2, L3, L4, E1, M1, X1 >>
 
 ASSUME ndJsonSerialize("cases.ndjson", Cases)
